@@ -120,14 +120,17 @@ def set (l : Locals) (n : String) (d : Details) : Locals := (n, d) :: l.filter (
 
 /-- `apply_child_scope`: what the child changed of the parent's variables is copied back. -/
 def applyChildScope (parent child : Locals) : Locals :=
-  parent.map fun (n, d) => (n, (get child n).getD d)
+  parent.map fun x => (x.1, (get child x.1).getD x.2)
+
+/-- one variable of `self` in `LocalEnv::merge` -/
+def mergeEntry (other : Locals) (x : String × Details) : String × Details :=
+  match get other x.1 with
+  | some od => (x.1, x.2.merge od)
+  | none => x
 
 /-- `LocalEnv::merge`: variables of both sides; the `Details::merge` where both have one. -/
 def merge (self other : Locals) : Locals :=
-  (self.map fun (n, d) =>
-    match get other n with
-    | some od => (n, d.merge od)
-    | none => (n, d)) ++ other.filter fun (n, _) => (get self n).isNone
+  self.map (mergeEntry other) ++ other.filter fun x => (get self x.1).isNone
 
 end Locals
 
